@@ -104,7 +104,7 @@ PROPS = {
         verus=['number', 'number_lint', 'document'],
         kani_quick=['number.suffix_full_domain', 'number.from_chars_roundtrip'],
         kani_thorough=['number.suffix_full_domain', 'number.from_chars_roundtrip'],
-        rac=['number_suffix_rule'],
+        rac=['number_suffix_rule', 'c17_possessive', 'c17_bracketed'],
         unverified=[
             'lex_number (decimal text -> f64 via str::parse, trusted std; exact for integers < 2^53 by IEEE-754)',
             'condense_number_suffixes (merging <number><suffix-word>) and CorrectNumberSuffix::lint iteration (paste!-generated iter_numbers); "after which nothing is reported" (needs re-lexing)',
